@@ -295,7 +295,7 @@ def gen_c08_case(rng: random.Random) -> Dict[str, Any]:
             supplied[p["name"]] = {"v": gen_value_for(rng, p["ann"]), "pos": positional}
     return {
         "params": params, "supplied": supplied, "async": rng.random() < 0.6,
-        "validate": rng.random() < 0.8, "fmt": rng.choice(FORMATS),
+        "validate": rng.random() < 0.75, "fmt": rng.choice(FORMATS), "late_register": rng.random() < 0.3,
     }
 
 
@@ -372,6 +372,10 @@ def run_c08(case: Dict[str, Any]) -> "tuple[List[Violation], Dict[str, Any]]":
     fn, src = build_fn(case)
     broker = PlainBroker()
     set_format(broker, case["fmt"])
+    early_receiver = None
+    if case.get("late_register"):
+        # the receiver exists before the task is registered (dynamic registration / InMemoryBroker)
+        early_receiver = Receiver(broker, executor=_EXEC, validate_params=case["validate"], max_async_tasks=1, run_startup=False)
     task = broker.register_task(fn, task_name="gen_task")
     args = []
     kwargs = {}
@@ -399,7 +403,7 @@ def run_c08(case: Dict[str, Any]) -> "tuple[List[Violation], Dict[str, Any]]":
     want_kwargs = {k: wire(prepared(x), case["fmt"]) for k, x in kwargs.items()}
     if not strict_eq(back.args, want_args) or not strict_eq(back.kwargs, want_kwargs):
         v.append(Violation("wire-content", f"decoded args/kwargs {back.args!r} {back.kwargs!r} != sent {want_args!r} {want_kwargs!r}"))
-    receiver = Receiver(broker, executor=_EXEC, validate_params=case["validate"], max_async_tasks=1, run_startup=False)
+    receiver = early_receiver or Receiver(broker, executor=_EXEC, validate_params=case["validate"], max_async_tasks=1, run_startup=False)
     del _REC[:]
 
     async def main(loop: Any) -> None:
@@ -481,7 +485,7 @@ class C08(Check):
         cr.nontrivial = len(sup) >= 2 and len(ann) >= 1
         shape = [(p.get("ann"), p.get("dep"), p["kwonly"], p["default"]) for p in spec["params"]]
         cr.sig = jhash([shape, sorted((k, s["pos"], _vclass(s["v"])) for k, s in sup.items()),
-                        spec["validate"], spec["fmt"], spec["async"]])
+                        spec["validate"], spec["fmt"], spec["async"], spec.get("late_register")])
         cr.trace = obs
         cr.events["task_invocation"] += 1
         return cr
